@@ -69,13 +69,16 @@ where
 {
     let mut masks = [0; 256];
 
-    let mut bit = 1;
+    let mut bit = 1u64;
+    let mut accept = 0;
     for c in pattern {
         masks[*c.borrow() as usize] |= bit;
-        bit *= 2;
+        accept = bit;
+        // shifts the bit out (to zero) after the 64th symbol instead of overflowing
+        bit <<= 1;
     }
 
-    (masks, bit / 2)
+    (masks, accept)
 }
 
 /// Iterator over start positions of matches.
